@@ -311,11 +311,16 @@ def run(ctx):
     if f:
         cl = common.callable_args_conditions(ctx, f, r"TraitImpl::<'a>::type_params_matching$", (1, 2)) or []
         ok = len(cl) == 2 and all(p == [{"elem.skip=False"}] for p in cl)
+        if not cl:
+            # the filters applied inside the walk instead of handed to it: one over fields, one over variants
+            sf = common.skip_filters(ctx, f)
+            cl = [d for k, d in sf]
+            ok = sorted(k for k, d in sf) == ["field", "variant"] and all(d == [{"elem.skip=False"}] for k, d in sf)
         ctx.ob("C19.G.skipped-fields-and-variants-ignored", f.key, "|f| !f.skip, |v| !v.skip", ok, "filters keep an element under %s" % cl)
     # every walk that feeds the bound computation goes over *fields that passed the field filter*, for
     # struct bodies and for each variant of an enum body alike (walking whole variants would count
     # their skipped fields), with the BoundImpl purpose — wherever the walk is written
-    f = ctx.fn("darling_core::codegen::trait_impl::TraitImpl::<'a>::type_params_matching")
+    f = ctx.fn("darling_core::codegen::trait_impl::TraitImpl::<'a>::type_params_matching", required=False) or ctx.fn("darling_core::codegen::trait_impl::TraitImpl::<'a>::used_type_params")
     if f:
         walks = ctx.find_calls_deep(f, r"collect_type_params(_cloned)?$", helpers=2)
         ctx.ob("C19.G.bound-purpose", f.key, "walks found", len(walks) >= 1, "%d collect_type_params calls" % len(walks))
